@@ -115,4 +115,25 @@ theorem verifyRaw_iff_spec (sha256 : Bytes → Bytes) (c : Cache) (hc : CacheOK 
                 exact (Prod.mk.inj h).1
               · intro h; exact ⟨c', by rw [h]⟩
 
+/-- The all-zero x-only key: `S256Point.parse` reads it as the point at infinity (it does not refuse it), and
+    `verify_schnorr` on the point at infinity raises (no `parity` attribute) before looking at the signature; so the
+    call never returns True — whatever the message and the signature, also when the signature string itself does
+    not parse.  BIP340 refuses the key because `lift_x(0)` fails (7 is not a square modulo p). -/
+theorem verifyRaw_zero_key (sha256 : Bytes → Bytes) (c : Cache) (pk m sig : Bytes) (hpk : pk.length = 32)
+    (h0 : beToNat pk = 0) :
+    parsePoint pk = some .inf ∧ verifyRaw sha256 c pk m sig = none ∧ Spec.BIP340.verify sha256 pk m sig = false := by
+  have hp : parsePoint pk = some .inf := by
+    simp only [parsePoint, hpk, if_true]; exact parseXonly_zero pk h0
+  refine ⟨hp, ?_, ?_⟩
+  · simp only [verifyRaw, hp, Option.bind_eq_bind, Option.bind_some]
+    cases parse sig with
+    | none => rfl
+    | some Rs => simp [verifySchnorr, parityOf]
+  · rw [spec_verify_unfold, h0, liftX_zero]
+
+/-- verify_schnorr on the point at infinity as key never answers (AttributeError), for every R and s -/
+theorem verifySchnorr_inf_key (sha256 : Bytes → Bytes) (c : Cache) (m : Bytes) (R : Pt) (s : ℕ) :
+    verifySchnorr sha256 c .inf m R s = none := by
+  simp [verifySchnorr, parityOf]
+
 end Buidl.Schnorr
